@@ -32,7 +32,7 @@ var opByID = func() map[string]int {
 	return m
 }()
 
-var varNames = []string{"a", "b", "m", "s", "x", "t", "ts", "tm", "st"}
+var varNames = []string{"a", "b", "m", "s", "x", "t", "ts", "tm", "st", "u", "tf", "st2"}
 
 // ---------- one world: an anko environment and the model, side by side ----------
 
@@ -122,6 +122,19 @@ func (w *world) implRoots() (rs []root, problem string) {
 		rs = append(rs, root{n, v})
 	}
 	return rs, ""
+}
+
+// initialDiff compares a world on which nothing was executed yet with the model.
+func (w *world) initialDiff() (diff, where string) {
+	ir, p := w.implRoots()
+	if p != "" {
+		return p, "?"
+	}
+	mr := w.modelRoots()
+	if md, id := dumpRoots(mr, false), dumpRoots(ir, false); md != id {
+		return fmt.Sprintf("a fresh environment does not start in the initial state: %s\n--- model\n%s--- implementation\n%s", lineDiff(md, id), md, id), diffVars(mr, ir)
+	}
+	return "", ""
 }
 
 // key is the canonical form of the model state (strict: nil-ness included).
@@ -257,6 +270,9 @@ func implWord(o implOut) string {
 type history struct {
 	Cfg int      `json:"cfg"`
 	Ops []string `json:"ops"` // operation identifiers (symbolic source)
+	// Pre: a history executed first, on ANOTHER fresh environment of the same
+	// process (isolation violations: state leaking between environments)
+	Pre *history `json:"pre,omitempty"`
 }
 
 type built struct {
@@ -274,6 +290,13 @@ func build(h history, plain bool) built {
 	if problem != "" {
 		b.failed = &stepResult{kind: "setup", diff: problem}
 		return b
+	}
+	if plain {
+		if d, where := w.initialDiff(); d != "" {
+			b.failed = &stepResult{kind: "initial-state", where: where, diff: d}
+			b.at = -1
+			return b
+		}
 	}
 	for i, id := range h.Ops {
 		oi, ok := opByID[id]
@@ -445,12 +468,7 @@ func run(c *common.Ctx) *common.Result {
 		w, problem := newWorld(cfg, true)
 		diff := problem
 		if diff == "" {
-			ir, p := w.implRoots()
-			if p != "" {
-				diff = p
-			} else if md, id := dumpRoots(w.modelRoots(), false), dumpRoots(ir, false); md != id {
-				diff = fmt.Sprintf("initial state differs\n--- model\n%s--- implementation\n%s", md, id)
-			}
+			diff, _ = w.initialDiff()
 		}
 		if diff != "" {
 			res.Violate(common.Violation{Class: "initial/state", Case: caseString(cfg, nil), Detail: diff, Replay: history{Cfg: cfg}})
@@ -463,6 +481,19 @@ func run(c *common.Ctx) *common.Result {
 
 	violCases := map[string]bool{}
 	var vmu sync.Mutex
+
+	// Sequential pre-pass, in this process, before any goroutine is started:
+	// every depth-1 history, twice over, each on a fresh environment and a fresh
+	// model.  Fresh environments must be independent of everything executed
+	// before in the process; state that leaks from one environment into the
+	// next (a process-wide cache handing out shared maps, ...) shows up here as
+	// a fresh environment that does not start in the initial state.  The
+	// parallel search relies on that independence (histories run concurrently),
+	// so it is skipped when the pre-pass finds a leak.
+	if prepass(res, violCases) {
+		res.Cap("environments of one process are not isolated (see the isolation/... violation): the parallel search was skipped")
+		return res
+	}
 	maxDepth := fullDepth
 	if coreDepth > maxDepth {
 		maxDepth = coreDepth
@@ -581,6 +612,52 @@ func run(c *common.Ctx) *common.Result {
 	return res
 }
 
+func prepass(res *common.Result, violCases map[string]bool) (leak bool) {
+	var prev *history
+	var prevSrcs []string
+	inCfg0 := map[string]bool{}
+	for round := 0; round < 2; round++ {
+		for cfg := range configs {
+			for _, o := range alphabet {
+				h := history{Cfg: cfg, Ops: []string{o.ID}}
+				b := build(h, true)
+				res.Add("prepass_transitions", 1)
+				if b.failed != nil && b.failed.kind == "initial-state" {
+					cs := "fresh environment: " + caseString(cfg, nil)
+					rp := history{Cfg: cfg}
+					if prev != nil {
+						cs = "one environment: " + caseString(prev.Cfg, prevSrcs) + " || then a fresh environment: " + caseString(cfg, nil)
+						rp.Pre = prev
+					}
+					res.Violate(common.Violation{Class: "isolation/initial-state[" + b.failed.where + "]", Case: cs, Detail: b.failed.diff, Replay: rp})
+					return true
+				}
+				hh := h
+				prev, prevSrcs = &hh, b.srcs
+				if b.failed == nil || b.failed.kind == "undet" {
+					continue
+				}
+				// depth-1 histories are minimal already (no re-execution here: a
+				// leak found later must not be mixed into this case); a
+				// divergence already reported for configuration 0 is not
+				// repeated for the others, as the shrinker of the search does
+				class := b.failed.class(o)
+				if cfg == 0 {
+					inCfg0[class+"|"+o.ID] = true
+				} else if inCfg0[class+"|"+o.ID] {
+					continue
+				}
+				cs := caseString(cfg, b.srcs)
+				if !violCases[cs] {
+					violCases[cs] = true
+					res.Violate(common.Violation{Class: class, Case: cs, Detail: b.failed.diff, Replay: h})
+				}
+			}
+		}
+	}
+	return false
+}
+
 func coverage(c *common.Ctx, r *common.Result) map[string]interface{} {
 	perKind := map[string]int64{}
 	for k, v := range r.Counts {
@@ -614,6 +691,12 @@ func replay(c *common.Ctx, path string) int {
 	var first string
 	var srcs []string
 	for round := 0; round < 2; round++ {
+		if h.Pre != nil {
+			pb := build(*h.Pre, true)
+			if round == 0 {
+				fmt.Println("first, on another environment of this process:", caseString(h.Pre.Cfg, pb.srcs))
+			}
+		}
 		b := build(h, true)
 		d := ""
 		if b.failed != nil {
@@ -651,6 +734,8 @@ func init() {
 			"the variable x is not compared while it is bound to a value read from a typed slice element or struct field (anko binds the addressable slot, Go copies; the property only constrains the field/element itself), but everything else is, so a store through x that changes the field is reported",
 			"the model appends with Go's builtin append; a start-up self-check confirms that reflect.Append (used by the interpreter) picks the same capacities in this Go release",
 			"a panic escaping vm.Execute is reported as a violation (the property demands an error)",
+			"also in the state: u (alias / sub-slice of the typed slice t), tf = make([]float64, 1, 4), st2 (a second value of st's struct type); `+`/`+=` between slices of different static element types is modelled as the Go loop `for _, e := range r { l = append(l, T(e)) }` (appends in place while the capacity lasts)",
+			"before the parallel search a sequential pre-pass executes every depth-1 history twice on fresh environments in this process; a fresh environment that does not start in the initial state is an isolation/... violation and the parallel search is then skipped (exhaustive:false)",
 		},
 	})
 }
